@@ -23,6 +23,11 @@ ASSUMPTIONS = [
 CFG = gen.cfg_with(probe_w=1, max_root=5)
 
 
+def program_strategy(cfg, cache):
+    from hypothesis import strategies as _st
+    return _st.one_of(gen.program(cfg, cache), gen.program(cfg, cache), gen.program(cfg, cache), gen.ancestor_pattern_program(cfg, cache))
+
+
 def plant_paths(h, cfg):
     """Relative paths at which planting is interesting."""
     out = []
